@@ -1926,6 +1926,9 @@ class InCaptionPhase(Phase):
     def processCharacters(self, token):
         return self.parser.phases["inBody"].processCharacters(token)
 
+    def processSpaceCharacters(self, token):
+        return self.parser.phases["inBody"].processSpaceCharacters(token)
+
     def startTagTableElement(self, token):
         self.parser.parseError()
         # XXX Have to duplicate logic here to find out if the tag is ignored
@@ -2257,6 +2260,9 @@ class InCellPhase(Phase):
 
     def processCharacters(self, token):
         return self.parser.phases["inBody"].processCharacters(token)
+
+    def processSpaceCharacters(self, token):
+        return self.parser.phases["inBody"].processSpaceCharacters(token)
 
     def startTagTableOther(self, token):
         if (self.tree.elementInScope("td", variant="table") or
